@@ -126,11 +126,7 @@ func replay(r *ev.Run) {
 			r.Broken("bad target in replay")
 		}
 		if sub, what := checkTarget(n); sub != "" {
-			key := fmt.Sprintf("%s/target=%s", sub, n.Text(16))
-			if sub == negInexactKey {
-				key = negInexactKey
-			}
-			r.Violation(key, what, t)
+			r.Violation(fmt.Sprintf("%s/target=%s", sub, n.Text(16)), what, t)
 		}
 	case "hist":
 		var c histCase
